@@ -1,5 +1,5 @@
 #!/bin/bash
 # tools/seeded_new.sh <pattern> : run seeded changes whose directory name matches, 4 at a time; deductive-only and full
 cd "$(dirname "$0")/.."
-ls seeded | grep -E "${1:-_[ab]$}" | xargs -P 4 -I{} bash -c 'n={}; (CHECK_ARGS=--no-bounded tools/seeded_run.sh $n 2>&1 | sed "s/^/[deductive] /"; tools/seeded_run.sh $n 2>&1 | grep -v "demo unchanged" | sed "s/^/[full]      /") > out/seeded_$n.txt 2>&1'
+ls seeded | grep -E "${1:-_[ab]$}" | xargs -P 3 -I{} bash -c 'n={}; (CHECK_ARGS=--no-bounded tools/seeded_run.sh $n 2>&1 | sed "s/^/[deductive] /"; tools/seeded_run.sh $n 2>&1 | grep -v "demo unchanged" | sed "s/^/[full]      /") > out/seeded_$n.txt 2>&1'
 cat out/seeded_*_[ab].txt 2>/dev/null
